@@ -1,6 +1,6 @@
 (* Checkers evaluated by the correspondence run: each returns the indices of
    the cases on which the model and the implementation's observed output differ. *)
-From V Require Import Common.Base C18.Pieces C18.Hash C18.XXHash.
+From V Require Import Common.Base C18.Pieces C18.Hash C18.XXHash C18.Escape.
 
 Fixpoint mism_from {A} (f : A -> bool) (l : list A) (i : nat) : list nat :=
   match l with
@@ -35,13 +35,14 @@ Fixpoint lookup (t : list (Z * Z * bytes)) (k i : Z) : bytes :=
   end.
 
 (* substituteFinalPaths and accurateFinalByteCount on the same pieces:
-   (has pieces?, pieces, joiner bytes, table of pathBetweenChunks results for the
-    referenced (kind,index), Go substituted bytes, Go count) *)
-Definition subst_ok (c : bool * list rawpiece * bytes * list (Z * Z * bytes) * bytes * Z) : bool :=
-  let '(has, gps, jb, tab, gout, gcount) := c in
+   (isCSS flag of the intermediate output, has pieces?, pieces, joiner bytes,
+    table of pathBetweenChunks results (unescaped) for the referenced (kind,index),
+    Go substituted bytes, Go count) *)
+Definition subst_ok (c : bool * bool * list rawpiece * bytes * list (Z * Z * bytes) * bytes * Z) : bool :=
+  let '(css, has, gps, jb, tab, gout, gcount) := c in
   let ps := map mkp gps in
-  zlist_eqb (substitute_out (lookup tab) (if has then Some ps else None) jb) gout
-  && (accurate_count (lookup tab) (if has then ps else []) =? gcount)
+  zlist_eqb (substitute_out_esc css (lookup tab) (if has then Some ps else None) jb) gout
+  && (accurate_count_esc css (lookup tab) (if has then ps else []) =? gcount)
   && (negb has || (gcount =? Z.of_nat (length gout))).
 Definition check_subst := mismatches subst_ok.
 
